@@ -10,6 +10,7 @@ from engine.model import src, stmt_key, dotted, AnalysisError
 from engine.util import own_nodes, calls_with_nodes, where, with_exprs
 
 RULES = {
+    "R-02.13": "SVCB `mandatory` keys are encoded in ascending NUMERIC order (the reader refuses anything else): MandatoryParam sorts the validated key numbers - the sorted() call encloses the _validate_key mapping, it is not applied to the caller's spellings first",
     "R-02.12": "plain encoding keeps the octets: a record writer lower-cases an embedded name only when the caller asked for the canonical form - the `canonicalize` flag a subclass hands to its base writer is the caller's (or the constant the RFC 4034 table prescribes), never a constant True (C15 R-15.1 adopted)",
     "R-02.11": "the reader accepts every value the writer can produce at the edges of a range: for each range refusal of LOC.from_wire_parser (`x < MIN or x > MAX` over the folded constants) the test is evaluated - by the checker, on the expression - at MIN and MAX (must pass) and at MIN-1 and MAX+1 (must refuse)",
     "R-02.10": "a malformed RDATA is a format error whatever helper noticed it: the per-type reader runs entirely inside `with ExceptionWrapper(FormError)` and the wrapper converts every foreign exception, DNS exceptions of other families included (rule of C04 R-04.3, run here directly because C04 adopts C02 rules)",
@@ -337,6 +338,12 @@ def run(model, rep, tier):
                       f"`{b_}` is read from the wire (`{src(a)[:50]}`) and never used: the decoded object gets the constructor's default for that field, so a value whose field is non-default "
                       "does not survive encode-then-decode", stmt=f"wire-value-used {b_}")
     rep.floor("R-02.7", n_read, 120)
+    mp = model.func("dns.rdtypes.svcbbase.MandatoryParam.__init__")
+    srt = [c for c in ast.walk(mp.node) if isinstance(c, ast.Call) and src(c.func) == "sorted"]
+    okk13 = len(srt) == 1 and any(isinstance(x, ast.Call) and src(x.func).endswith("_validate_key") for x in ast.walk(srt[0].args[0])) if srt else False
+    rep.check(bool(okk13), "R-02.13", mp.qualname, where(mp, srt[0] if srt else mp.node), "keys are validated (mapped to numbers) first and sorted numerically",
+              "MandatoryParam does not sort the VALIDATED key numbers (e.g. it sorts the caller's mnemonics alphabetically and maps them afterwards): `mandatory=port,ipv6hint` encodes in descending order and the "
+              "library's own decoder rejects it; the duplicate check is defeated the same way", stmt="mandatory-sorted-numerically")
     rep.share(model, "C15", {"R-15.1"}, "R-02.12", "to_wire(canonicalize=False) is what from_wire's fixed point compares with: decode-then-encode must reproduce the case of embedded names")
     from engine.minieval import evaluate, Unsupported
     lw = model.func("dns.rdtypes.ANY.LOC.LOC.from_wire_parser")
@@ -372,6 +379,8 @@ def run(model, rep, tier):
 
 
 WITNESSES = [
+    {"id": "c02-mandatory-sorted-by-spelling", "rule": "R-02.13", "file": "dns/rdtypes/svcbbase.py", "expect": "fires",
+     "old": "        keys = sorted([_validate_key(key)[0] for key in keys])", "new": "        keys = [_validate_key(key)[0] for key in sorted(keys)]"},
     {"id": "c02-loc-reader-upper-bound-exclusive", "rule": "R-02.11", "file": "dns/rdtypes/ANY/LOC.py", "expect": "fires",
      "old": "        if latitude < _MIN_LATITUDE or latitude > _MAX_LATITUDE:", "new": "        if not _MIN_LATITUDE <= latitude < _MAX_LATITUDE:"},
     {"id": "c02-twin-loc-reader-chained-closed", "rule": "R-02.11", "file": "dns/rdtypes/ANY/LOC.py", "expect": "silent",
